@@ -27,7 +27,7 @@ class ZeroFunctional(ElementaryProximableFunctional):
         # To ensure that the dtype matches what it would be if we were to apply the weight and target
         dtype = torch.promote_types(torch.promote_types(x.dtype, self.weight.dtype), self.target.dtype).to_real()
 
-        if self.dim is None:
+        if self.dim is None or len(self.dim) == 0:  # torch.sum / torch.mean reduce over all dimensions for an empty dim
             normal_dim: Sequence[int] = range(x.ndim)
         elif not all(-x.ndim <= d < x.ndim for d in self.dim):
             raise IndexError('Invalid dimension index')
